@@ -2,6 +2,7 @@ import Props.C10
 import Props.C11
 import Props.C12
 import Props.C13
+import SdxModel.Sample
 /-!
 # C07 — Any supported table synthesizes; schema, dtypes and value domains preserved
 
@@ -18,3 +19,91 @@ def planColumns (c : Clusters) : List Nat := c.initial ++ (c.derivedClusters.map
 theorem C07_plan_covers_requested_columns (n : Nat) (main : Option Nat) (c : Clusters) (h : WellFormedPlan n main c) :
     (planColumns c).Perm (List.range n) ∧ (planColumns c).Nodup :=
   ⟨h.complete, h.complete.nodup_iff.mpr List.nodup_range⟩
+
+/-! ## The composed `build_table` -/
+
+section
+variable {α : Type} [Field α] [LinearOrder α] [IsStrictOrderedRing α] [FloorRing α] [Inhabited α]
+
+theorem materializeGM_cols (E : Env α) (F : Forest α) (convs : List (Conv α)) (cols : List Nat)
+    (streams : List Nat × List (Draw α)) (s s' : List (Draw α)) (res : MTable (Cell α) α)
+    (h : (materializeGM E F convs cols streams).run s = .ok (res, s')) : ∀ j, j ∈ res.2 ↔ j ∈ cols := by
+  unfold materializeGM at h
+  obtain ⟨u1, s1, _, h⟩ := StateT_bind_ok _ _ _ _ _ h
+  obtain ⟨u2, s2, _, h⟩ := StateT_bind_ok _ _ _ _ _ h
+  simp only at h
+  split at h
+  · simp [throw, throwThe, MonadExceptOf.throw, StateT.lift, StateT.run, bind, Except.bind] at h
+  · obtain ⟨rfl, _⟩ := StateT_pure_ok _ _ _ _ h
+    intro j
+    exact (sortAscStable_perm _ cols).mem_iff
+
+/-- C07 (schema, composed)  whenever the composed `build_table` finishes — any plan, any RNG streams — the assembled table
+has exactly the columns of the plan's clusters: a column is present iff it is in the initial cluster or in the stitch or
+derived columns of some derived cluster. With a well-formed plan (`C13_solve_wellFormed`,
+`C07_plan_covers_requested_columns`) that is every column of the input, once. -/
+theorem C07_buildTable_columns (E : Env α) (F : Forest α) (convs : List (Conv α)) (isIntegral : List Bool) (entropy : List α)
+    (threshRel : α) (cl : Clusters) (streams : List (List Nat × List (Draw α))) (s s' : List (Draw α))
+    (res : MTable (Cell α) α)
+    (h : (buildTable E F convs isIntegral entropy threshRel cl streams).run s = .ok (res, s')) :
+    ∀ j, j ∈ res.2 ↔ j ∈ cl.initial ∨ ∃ dc ∈ cl.derivedClusters, j ∈ dc.stitch ∨ j ∈ dc.derived := by
+  unfold buildTable at h
+  obtain ⟨acc0, s0, h0, h⟩ := StateT_bind_ok _ _ _ _ _ h
+  have hinit := materializeGM_cols E F convs _ _ _ _ _ h0
+  -- the fold over the derived clusters
+  have key : ∀ (l : List (DerivedCluster × Nat)) (acc : MTable (Cell α) α) (s1 s2 : List (Draw α)) (r : MTable (Cell α) α)
+      (P : Nat → Prop), (∀ j, j ∈ acc.2 ↔ P j) →
+      (l.foldlM (fun acc (p : DerivedCluster × Nat) => do
+        let right ← materializeGM E F convs (p.1.stitch ++ p.1.derived) (streams.getD (p.2 + 1) ([], []))
+        if p.1.stitch.isEmpty then doPatch acc right
+        else doStitch F.snapped isIntegral entropy threshRel acc right p.1) acc).run s1 = .ok (r, s2) →
+      ∀ j, j ∈ r.2 ↔ P j ∨ ∃ p ∈ l, j ∈ p.1.stitch ∨ j ∈ p.1.derived := by
+    intro l
+    induction l with
+    | nil =>
+      intro acc s1 s2 r P hP hr
+      simp only [List.foldlM_nil] at hr
+      obtain ⟨rfl, _⟩ := StateT_pure_ok _ _ _ _ hr
+      intro j; simp [hP j]
+    | cons p rest ih =>
+      intro acc s1 s2 r P hP hr
+      rw [List.foldlM_cons] at hr
+      obtain ⟨acc1, s3, hstep, hr⟩ := StateT_bind_ok _ _ _ _ _ hr
+      obtain ⟨right, s4, hm, hstep⟩ := StateT_bind_ok _ _ _ _ _ hstep
+      have hright := materializeGM_cols E F convs _ _ _ _ _ hm
+      have hacc1 : ∀ j, j ∈ acc1.2 ↔ (P j ∨ j ∈ p.1.stitch ∨ j ∈ p.1.derived) := by
+        intro j
+        have hcols : acc1.2 = (locateColumns acc.2 right.2).map (·.columnId) := by
+          split_ifs at hstep
+          · obtain ⟨_, _, _, _, hc⟩ := C12_patch acc right acc1 _ _ hstep
+            exact hc
+          · exact (C12_doStitch_real_rows _ _ _ _ acc right acc1 p.1 _ _ hstep).1
+        rw [hcols, C12_columns_union, hP j, hright j, List.mem_append]
+      have := ih acc1 s3 s2 r (fun j => P j ∨ j ∈ p.1.stitch ∨ j ∈ p.1.derived) hacc1 hr
+      intro j
+      rw [this j]
+      simp only [List.mem_cons, exists_eq_or_imp]
+      constructor
+      · rintro ((h1 | h1) | h1)
+        · exact Or.inl h1
+        · exact Or.inr (Or.inl h1)
+        · exact Or.inr (Or.inr h1)
+      · rintro (h1 | h1 | h1)
+        · exact Or.inl (Or.inl h1)
+        · exact Or.inl (Or.inr h1)
+        · exact Or.inr h1
+  have := key _ acc0 s0 s' res (fun j => j ∈ cl.initial) hinit h
+  intro j
+  rw [this j]
+  constructor
+  · rintro (h1 | ⟨p, hp, h2⟩)
+    · exact Or.inl h1
+    · exact Or.inr ⟨p.1, (List.of_mem_zip hp).1, h2⟩
+  · rintro (h1 | ⟨dc, hdc, h2⟩)
+    · exact Or.inl h1
+    · obtain ⟨i, hi, rfl⟩ := List.mem_iff_getElem.mp hdc
+      refine Or.inr ⟨(cl.derivedClusters[i], i), ?_, h2⟩
+      rw [List.mem_iff_getElem]
+      exact ⟨i, by simp [hi], by simp⟩
+
+end
